@@ -472,6 +472,122 @@ static void envvar_case(const std::tuple<int, int, int> &c, pbt::Ctx &ctx)
   ctx.label(set ? "set" : "unset");
 }
 
+// ---------------------------------------------------------------- assignment whose payload assignment throws
+// "Every payload object that is constructed is destroyed exactly once" also holds when the payload's own assignment operator
+// throws in the middle of an Optional assignment (value, copy, from an engaged source; into an engaged and into an EMPTY
+// target).  What the target holds afterwards is not prescribed (the model adopts what it reports, and the value must be
+// readable); the lifetime clause is: nothing constructed on the way stays behind undestroyed.
+struct AssignThrower : Tracked
+{
+  static bool &failNext()
+  {
+    static bool f = false;
+    return f;
+  }
+  AssignThrower() : Tracked() {}
+  AssignThrower(int v) : Tracked(v) {}
+  AssignThrower(const AssignThrower &o) : Tracked(o) {}
+  AssignThrower &operator=(const AssignThrower &o)
+  {
+    if (failNext()) {
+      failNext() = false;
+      throw std::runtime_error("payload assignment failed");
+    }
+    Tracked::operator=(o);
+    return *this;
+  }
+};
+static void assign_throw_case(const std::vector<Op> &ops, pbt::Ctx &ctx)
+{
+  pbt::treg().reset();
+  AssignThrower::failNext() = false;
+  bool failedIntoEmpty = false, failedIntoEngaged = false;
+  {
+    std::unique_ptr<Optional<AssignThrower>> slot[3];
+    struct M
+    {
+      bool exists = false, has = false;
+      long long v = 0;
+    } m[3];
+    for (const Op &op : ops) {
+      int a = (int)(op.a % 3), b = (int)(op.b % 3);
+      int v = (int)op.c;
+      const int kind = ((op.k % 7) + 7) % 7;
+      switch (kind) {
+      case 0:
+        slot[a].reset(new Optional<AssignThrower>());
+        m[a] = M{true, false, 0};
+        break;
+      case 1:  // assign a value, fine
+        if (!m[a].exists)
+          break;
+        {
+          AssignThrower src(v);
+          *slot[a] = std::as_const(src);
+        }
+        m[a].has = true;
+        m[a].v = v;
+        break;
+      case 2:    // assign a value, the payload assignment throws
+      case 3: {  // copy-assign from another engaged slot, the payload assignment throws
+        if (!m[a].exists || (kind == 3 && (!m[b].exists || !m[b].has || a == b)))
+          break;
+        const bool wasEngaged = m[a].has;
+        bool threw = false;
+        AssignThrower src(v);
+        AssignThrower::failNext() = true;
+        try {
+          if (kind == 2)
+            *slot[a] = std::as_const(src);
+          else
+            *slot[a] = std::as_const(*slot[b]);
+        } catch (const std::runtime_error &) {
+          threw = true;
+        }
+        AssignThrower::failNext() = false;
+        PBT_ASSERT_MSG(threw, "the payload assignment's exception did not reach the caller");
+        (wasEngaged ? failedIntoEngaged : failedIntoEmpty) = true;
+        m[a].has = slot[a]->has_value();  // not prescribed after a failed assignment
+        if (m[a].has)
+          m[a].v = (**slot[a]).value();
+        break;
+      }
+      case 4:
+        if (m[a].exists) {
+          slot[a]->reset();
+          m[a].has = false;
+        }
+        break;
+      case 5:  // copy-assign between slots, fine
+        if (!m[a].exists || !m[b].exists)
+          break;
+        *slot[a] = std::as_const(*slot[b]);
+        m[a].has = m[b].has;
+        m[a].v = m[b].v;
+        break;
+      default:
+        slot[a].reset();
+        m[a] = M();
+        break;
+      }
+      for (int i = 0; i < 3; ++i)
+        if (m[i].exists) {
+          PBT_ASSERT_MSG(slot[i]->has_value() == m[i].has, "slot " << i << ": has_value()=" << slot[i]->has_value() << ", model " << m[i].has);
+          if (m[i].has)
+            PBT_ASSERT_MSG((**slot[i]).value() == m[i].v, "slot " << i << " holds " << (**slot[i]).value() << ", model " << m[i].v);
+        }
+      PBT_TRACKED_OK();
+    }
+  }
+  PBT_TRACKED_OK();
+  PBT_ASSERT_MSG(pbt::treg().liveCount() == 0, "payload objects constructed but never destroyed: " << pbt::treg().liveCount());
+  if (failedIntoEmpty)
+    ctx.label("payload assignment failed while assigning into an empty optional");
+  if (failedIntoEngaged)
+    ctx.label("payload assignment failed while assigning into an engaged optional");
+  ctx.nt(failedIntoEmpty || failedIntoEngaged);
+}
+
 // ---------------------------------------------------------------- emplace() whose payload constructor throws
 // The statement "holds a value exactly when the last operation gave it one / every constructed payload is destroyed exactly
 // once / no payload operation on dead storage" also covers an emplace() that fails: the old payload is gone, no new one
@@ -572,6 +688,7 @@ static void register_properties()
   pbt::property<std::vector<Op>>("optional_magic", 1500, ops, optional_case<Magic>);
   pbt::property<std::vector<Op>>("optional_scaled", 1500, ops, optional_case<Scaled>);
   pbt::property<std::vector<Op>>("optional_emplace_throws", 1500, pbt::vec(pbt::genOp(6, 2, 2, 63), 24), emplace_throw_case);
+  pbt::property<std::vector<Op>>("optional_assign_throws", 1500, pbt::vec(pbt::genOp(7, 2, 2, 63), 20), assign_throw_case);
   pbt::property<std::tuple<int, int, int>>("getenvvar", 300,
       rc::gen::tuple(pbt::range<int>(0, 2), pbt::range<int>(0, 1), pbt::range<int>(-1000, 1000)), envvar_case);
 }
